@@ -353,7 +353,10 @@ type Stored struct {
 	Copies  int           // number of servers holding the key
 }
 
-// Lookup reads a key from the given servers with miniredis' direct API.
+// Lookup reads a key from the given servers with miniredis' direct API.  The three reads
+// are not atomic, and the cleaner's retried DEL of a key whose invalidation failed may land
+// between them (a vanished key reports TTL 0, which would look like a persistent key): a
+// key that is gone at the end of the reads is reported as absent.
 func (e *Env) Lookup(nodes []int, key string) Stored {
 	var s Stored
 	for _, n := range nodes {
@@ -361,10 +364,14 @@ func (e *Env) Lookup(nodes []int, key string) Stored {
 		if !mr.Exists(key) {
 			continue
 		}
+		raw, err := mr.Get(key)
+		ttl := mr.TTL(key)
+		if err != nil || !mr.Exists(key) {
+			continue
+		}
 		s.Copies++
 		s.Present = true
-		s.Raw, _ = mr.Get(key)
-		s.TTL = mr.TTL(key)
+		s.Raw, s.TTL = raw, ttl
 	}
 	return s
 }
@@ -671,7 +678,9 @@ func (w *World) Settle(want map[string]Want) {
 				continue
 			}
 			if touched && wt.Absent {
-				w.same(k, w.entry(k), s)
+				if d := w.diff(k, w.entry(k), s); d != "" {
+					w.Fail("key %s must not be cached after this operation, the store holds %q (ttl %v); an earlier invalidation of the key failed, so the entry from back then might have survived, but this is a different one: %s", k, s.Raw, s.TTL, d)
+				}
 				continue
 			}
 		}
@@ -724,23 +733,31 @@ func (w *World) Settle(want map[string]Want) {
 
 // same: an untouched (or merely read) entry is exactly what the model holds.
 func (w *World) same(k string, old Entry, s Stored) {
+	if d := w.diff(k, old, s); d != "" {
+		w.Fail("key %s: %s (no operation wrote or removed it)", k, d)
+	}
+}
+
+// diff describes how the stored key differs from the model entry ("" = not at all).
+func (w *World) diff(k string, old Entry, s Stored) string {
 	if old.Present != s.Present {
-		w.Fail("key %s: store present=%v, model says %s (no operation wrote or removed it)", k, s.Present, old)
+		return fmt.Sprintf("store present=%v, model says %s", s.Present, old)
 	}
 	if !s.Present {
-		return
+		return ""
 	}
 	if old.Placeholder != (s.Raw == Placeholder) {
-		w.Fail("key %s: store holds %q, model says %s", k, s.Raw, old)
+		return fmt.Sprintf("store holds %q, model says %s", s.Raw, old)
 	}
 	if !old.Placeholder {
 		if got, err := w.Decode(k, s.Raw); err != nil || got != old.Val {
-			w.Fail("key %s: store holds %q (decoded %q, err %v), model says %s", k, s.Raw, got, err, old)
+			return fmt.Sprintf("store holds %q (decoded %q, err %v), model says %s", s.Raw, got, err, old)
 		}
 	}
 	if rem := time.Duration(old.ExpAt-w.Now) * time.Millisecond; s.TTL != rem {
-		w.Fail("key %s: remaining TTL %v, model says %v (no operation rewrote it)", k, s.TTL, rem)
+		return fmt.Sprintf("remaining TTL %v, model says %v", s.TTL, rem)
 	}
+	return ""
 }
 
 // lawful: after an injected fault the statement does not fix what is cached, but what is
@@ -811,6 +828,13 @@ func (w *World) MarkFailedInvalidations(trace []Cmd, outage bool, keys []string)
 			}
 		}
 	}
+	defer func() {
+		// VERIF_C06_WAIT_CLEANER_MS (experiments only, never set by check.json): pause after a
+		// failed invalidation so that the cleaner's retry lands in the middle of the case
+		if n > 0 && waitCleaner > 0 {
+			time.Sleep(waitCleaner)
+		}
+	}()
 	if outage { // under an outage the DEL reached the server and was answered with the error
 		for _, k := range keys {
 			if !w.Dirty[k] {
@@ -821,6 +845,8 @@ func (w *World) MarkFailedInvalidations(trace []Cmd, outage bool, keys []string)
 	}
 	return n
 }
+
+var waitCleaner = time.Duration(verifkit.EnvInt("c06_wait_cleaner_ms", 0)) * time.Millisecond
 
 // Injected counts the commands of the trace that the hook failed.
 func Injected(trace []Cmd) (n int) {
